@@ -800,6 +800,13 @@ func runC16(c *Ctx) {
 	}
 	envs := zooEnvs(c.Rng, nRandom)
 
+	// the model variant `asis` is derived from the source (Types/SrcDefects.lean over Gen/NameFetch.lean)
+	if resp, err := c.AskAll([]string{"(c16-srcflags)"}); err == nil && len(resp) == 1 {
+		c.R.Note("name-resolution switches derived from the source (ptrFuncNotFetched ptrIfaceFuncNotFetched fetchFnNoUnwrap fetchDerefOnce methodAsValue): %s", resp[0])
+	} else {
+		c.R.Mismatch("driver", "c16-srcflags", fmt.Sprint(err), "")
+	}
+
 	// ---------------------------------------------------------------- 0. history independence (child processes)
 	c16History(c)
 
